@@ -73,6 +73,36 @@ func frame(b []byte) []byte {
 
 func unhex(s string) []byte { b, _ := hex.DecodeString(s); return b }
 
+// rawBytes decodes one raw chunk: hex, or "z<N>" = N zero bytes (keeps MiB-sized bodies out of the case files)
+func rawBytes(s string) []byte {
+	if strings.HasPrefix(s, "z") {
+		n := 0
+		fmt.Sscanf(s[1:], "%d", &n)
+		return make([]byte, n)
+	}
+	return unhex(s)
+}
+
+// rawCase: malformed-stream case from literal chunk specs
+func rawCase(h, scen, class string, chunks ...string) *Case {
+	return &Case{H: h, Kind: "raw", Scen: scen, Raw: chunks, Class: class}
+}
+
+// frameLimitCases: bodies around the 1 MiB limit of the delimited reader actually present on the wire, and
+// truncated / over-long varint length prefixes
+func frameLimitCases(h, scen string) []*Case {
+	return []*Case{
+		rawCase(h, scen, "raw-frame-over-1MiB", "818040", "z1048577"),     // declared 1 MiB + 1, body present
+		rawCase(h, scen, "raw-frame-exactly-1MiB", "808040", "z1048576"),  // declared exactly 1 MiB (largest accepted), zero body
+		rawCase(h, scen, "raw-frame-4MiB-declared", "80808002", "z70000"), // 4 MiB declared, 70 kB sent
+		rawCase(h, scen, "raw-varint-truncated", "80"),
+		rawCase(h, scen, "raw-varint-truncated", "ffff"),
+		rawCase(h, scen, "raw-varint-truncated", "ffffffffffffffffff"),    // 9 continuation bytes, stream ends
+		rawCase(h, scen, "raw-varint-overlong", "ffffffffffffffffffff01"), // 11-byte varint
+		rawCase(h, scen, "raw-varint-overlong", "80808080808080808080808000"),
+	}
+}
+
 func hexes(bs ...[]byte) []string {
 	out := make([]string, len(bs))
 	for i, b := range bs {
